@@ -189,6 +189,35 @@ def combine(name, deps, vnames, fail_at=None, save_when=strax.SaveWhen.ALWAYS, r
     return Comb
 
 
+def pair(name, depa, depb, save_when=strax.SaveWhen.ALWAYS, rec=None, step_hook=None, rechunk_on_save=False):
+    """Depends on two data types of different kinds: one output row per row of depa, v = its v + number of depb rows in the chunk."""
+    state = dict(i=0)
+
+    class Pair(strax.Plugin):
+        dtype = ROW
+        parallel = False
+
+        def compute(self, **kw):
+            xa, xb = kw[depa], kw[depb]
+            i = state["i"]
+            state["i"] += 1
+            if step_hook is not None:
+                step_hook(name, i)
+            if rec is not None:
+                rec.add(name, i, len(xa))
+            r = np.zeros(len(xa), dtype=ROWDT)
+            r["time"], r["endtime"], r["v"] = xa["time"], strax.endtime(xa), xa["v"] + len(xb)
+            return r
+
+    Pair.__name__ = "Pair_" + name
+    Pair.provides = (name,)
+    Pair.depends_on = (depa, depb)
+    Pair.data_kind = name
+    Pair.save_when = save_when
+    Pair.rechunk_on_save = rechunk_on_save
+    return Pair
+
+
 def multi(names, dep, fail_at=None, save_when=None, rec=None, step_hook=None, rechunk_on_save=False):
     """Multi-output plugin: names[0] = row-wise map (v' = 2v), names[1] = rows with odd v only (v' = v + 10)."""
     state = dict(i=0)
